@@ -256,4 +256,148 @@ theorem loop1_raises (fuel : Nat) (ex : PyPath → Bool) (opts : List Str) (hto 
     exact key _ (dictHas_dictSet_same D _ _)
   · exact key D hh
 
+/-! ### the closed form of the first loop: one OutputTemplate per distinct package -/
+
+/-- the distinct members of a list, in first-occurrence order -/
+def firstOcc : List Str → List Str
+  | [] => []
+  | x :: r => x :: (firstOcc r).filter (fun y => decide (y ≠ x))
+
+theorem mem_firstOcc : ∀ (xs : List Str) (x : Str), x ∈ firstOcc xs ↔ x ∈ xs
+  | [], x => by simp [firstOcc]
+  | a :: r, x => by
+    by_cases h : x = a
+    · simp [firstOcc, h]
+    · simp [firstOcc, h, mem_firstOcc r x]
+
+theorem firstOcc_nodup : ∀ xs : List Str, (firstOcc xs).Nodup
+  | [] => by simp [firstOcc]
+  | a :: r => by
+    simp only [firstOcc, List.nodup_cons, List.mem_filter, decide_eq_true_eq, ne_eq, not_true_eq_false,
+      and_false, not_false_eq_true, true_and]
+    exact (firstOcc_nodup r).filter _
+
+theorem firstOcc_snoc : ∀ (xs : List Str) (x : Str),
+    firstOcc (xs ++ [x]) = if x ∈ xs then firstOcc xs else firstOcc xs ++ [x]
+  | [], x => by simp [firstOcc]
+  | a :: r, x => by
+    simp only [List.cons_append, firstOcc, firstOcc_snoc r x]
+    by_cases h1 : x ∈ r
+    · simp [h1]
+    · by_cases h2 : x = a
+      · subst h2
+        simp [h1, List.filter_append]
+      · have h2' : ¬ a = x := fun e => h2 e.symm
+        simp [h1, h2, h2', List.filter_append]
+
+/-- the files of one package, in request order -/
+def filesOf (files : List FileD) (k : Str) : List FileD := files.filter (fun f => decide (f.package = k))
+
+/-- the OutputTemplate the first loop builds for package `k` out of its files `fs` -/
+def tplOf (opts : List Str) (k : Str) (fs : List FileD) : OutTpl :=
+  { package_proto_obj := fs.headD default
+    input_files := fs
+    output := !(decide (k = "google.protobuf".toList) && !decide ("INCLUDE_GOOGLE".toList ∈ opts))
+    pydantic_dataclasses := decide ("pydantic_dataclasses".toList ∈ opts)
+    typing_compiler := setTC opts (.direct [])
+    built := [] }
+
+/-- the dict after the first loop -/
+def gather (opts : List Str) (files : List FileD) : Dict OutTpl :=
+  (firstOcc (files.map (·.package))).map fun k => (k, tplOf opts k (filesOf files k))
+
+theorem setTC_idem (opts : List Str) (tc : Py.Plg.TC) : setTC opts (setTC opts tc) = setTC opts tc := by
+  unfold setTC
+  split
+  · rfl
+  · split
+    · rfl
+    · split <;> rfl
+
+theorem hStep_new (opts : List Str) (f : FileD) : hStep opts f (newOutputTemplate f) = tplOf opts f.package [f] := by
+  unfold hStep newOutputTemplate tplOf
+  cases hc1 : (decide (f.package = "google.protobuf".toList) && !decide ("INCLUDE_GOOGLE".toList ∈ opts)) <;>
+  cases hc2 : decide ("pydantic_dataclasses".toList ∈ opts) <;> simp
+
+theorem hStep_tplOf (opts : List Str) (f : FileD) (fs : List FileD) (hne : fs ≠ []) :
+    hStep opts f (tplOf opts f.package fs) = tplOf opts f.package (fs ++ [f]) := by
+  unfold hStep tplOf
+  cases fs with
+  | nil => exact absurd rfl hne
+  | cons a r =>
+    cases hc1 : (decide (f.package = "google.protobuf".toList) && !decide ("INCLUDE_GOOGLE".toList ∈ opts)) <;>
+    cases hc2 : decide ("pydantic_dataclasses".toList ∈ opts) <;> simp [setTC_idem]
+
+theorem filesOf_snoc_same (pre : List FileD) (f : FileD) : filesOf (pre ++ [f]) f.package = filesOf pre f.package ++ [f] := by
+  simp [filesOf, List.filter_append]
+
+theorem filesOf_snoc_other (pre : List FileD) (f : FileD) (k : Str) (h : ¬ k = f.package) :
+    filesOf (pre ++ [f]) k = filesOf pre k := by
+  have : ¬ f.package = k := fun e => h e.symm
+  simp [filesOf, List.filter_append, this]
+
+theorem filesOf_ne_nil (pre : List FileD) (k : Str) (h : k ∈ pre.map (·.package)) : filesOf pre k ≠ [] := by
+  obtain ⟨f, hf, hk⟩ := List.mem_map.1 h
+  intro e
+  have : f ∈ filesOf pre k := by simp [filesOf, hf, hk]
+  rw [e] at this; cases this
+
+theorem filesOf_nil (pre : List FileD) (k : Str) (h : k ∉ pre.map (·.package)) : filesOf pre k = [] := by
+  apply List.filter_eq_nil_iff.2
+  intro f hf
+  simp only [decide_eq_true_eq]
+  intro e
+  exact h (List.mem_map.2 ⟨f, hf, e⟩)
+
+/-- one more file: the pass on the closed form is the closed form -/
+theorem step_gather (opts : List Str) (pre : List FileD) (f : FileD) :
+    step opts (gather opts pre) f = gather opts (pre ++ [f]) := by
+  unfold step gather
+  simp only [List.map_append, List.map_cons, List.map_nil, firstOcc_snoc]
+  by_cases hk : f.package ∈ pre.map (·.package)
+  · have hk' : f.package ∈ firstOcc (pre.map (·.package)) := (mem_firstOcc _ _).2 hk
+    rw [dictGet_map _ _ _ hk', if_pos hk]
+    simp only []
+    rw [dictSet_map _ _ _ _ hk' (firstOcc_nodup _)]
+    apply List.map_congr_left
+    intro k _
+    by_cases h : k = f.package
+    · subst h
+      simp only [if_true]
+      rw [hStep_tplOf opts f _ (filesOf_ne_nil pre _ hk), filesOf_snoc_same]
+    · simp only [h, if_false]
+      rw [filesOf_snoc_other pre f k h]
+  · have hk' : f.package ∉ firstOcc (pre.map (·.package)) := fun e => hk ((mem_firstOcc _ _).1 e)
+    have hg : dictGet ((firstOcc (pre.map (·.package))).map fun k => (k, tplOf opts k (filesOf pre k))) f.package
+        = .raise .key := by
+      apply dictHas_false
+      rw [dictHas_map]
+      simp [hk']
+    rw [hg, if_neg hk]
+    simp only []
+    rw [dictSet_map_new _ _ _ _ hk', List.map_append]
+    congr 1
+    · apply List.map_congr_left
+      intro k hkm
+      have h : ¬ k = f.package := fun e => hk' (e ▸ hkm)
+      rw [filesOf_snoc_other pre f k h]
+    · simp only [List.map_cons, List.map_nil]
+      rw [hStep_new, filesOf_snoc_same, filesOf_nil pre _ hk]
+      rfl
+
+theorem foldl_step_gather (opts : List Str) : ∀ (files pre : List FileD),
+    files.foldl (step opts) (gather opts pre) = gather opts (pre ++ files)
+  | [], pre => by simp
+  | f :: r, pre => by
+    simp only [List.foldl_cons]
+    rw [step_gather, foldl_step_gather opts r (pre ++ [f])]
+    simp
+
+/-- **the first loop as written builds `gather`** -/
+theorem loop1_gather (fuel : Nat) (ex : PyPath → Bool) (opts : List Str) (hto : (typingOpts opts).length ≤ 1)
+    (files : List FileD) : generate_code.loop1 fuel ex opts files [] = .ok (gather opts files) := by
+  rw [loop1_eq fuel ex opts hto]
+  have := foldl_step_gather opts files []
+  simpa [gather, firstOcc] using this
+
 end Bp.SrcTieParser
